@@ -5,6 +5,10 @@ import json, subprocess, os
 ROOT = os.path.dirname(os.path.dirname(os.path.abspath(__file__)))
 
 CLAIMED = {
+  "C01": ("proptest-generated circuit programs, satisfying by construction through an independent value model; oracle = prove Ok + returned PI = model PI + verify Ok on every key route + independent reference verifier accepts; exhaustive (k,delta) size sweep",
+          "Exploration: hundreds (quick) to thousands (thorough) of generated circuits per run covering every public component, raw arithmetic rows, constraint counts within +-8 of every power of two up to 2^9 (quick) / 2^13 (thorough), PI on first/last/adjacent rows, arbitrary labels, four capacity kinds and all 9 prover-route x verifier-route pairs plus byte round trips. A completeness bug that needs a particular size/padding/PI placement/route combination is reached by construction; absence is not proved.",
+          "Trusted: harness value model and reference verifier (cross-checked against the implementation on every case), ChaCha-seeded proving randomness (degenerate blinders not generated).",
+          "DESIGN.md C01"),
   # id: (technique, level text, level note, design_ref)
   "C19": ("proptest (seeded, sharded) against O(n^2) textbook definitions; differential across rayon pool sizes",
           "Exploration: thousands of generated vectors/polynomials/points per run are compared with direct evaluation, Lagrange interpolation and schoolbook arithmetic written in the harness; every length class (shorter/equal/longer than the domain), both sides of the 2^12 parallel switch and pools 1..=17 are populated (see classes in evidence). It finds kernel deviations that need a particular length/size/pool; it does not prove absence.",
